@@ -303,6 +303,12 @@ for name, inst, tags, tier in [
     ("stats_unallocated_zero", "unallocated arena reports zeros", [], "quick"),
 ]:
     A("stats", name, ["C10"], inst, tags=tags, tier=tier, mem_gb=10, timeout_s=2400, bounds=C10B)
+for name, inst, tier in [
+    ("stats_growth_stateful_up1", "stateful allocator (48-byte header): try_with_size(112) => 112-byte first chunk (capacity 64), filled, an 8-byte request creates the next chunk: strictly larger, >= 2 * previous - 16", "quick"),
+    ("stats_growth_stateful_down1", "same, down", "thorough"),
+    ("stats_growth_over_up1", "over-aligned allocator (64-byte header): 112-byte first chunk (capacity 48)", "thorough"),
+]:
+    A("stats", name, ["C10", "C12"], inst, tier=tier, mem_gb=8, timeout_s=1800, bounds="try_with_size(112), one concrete fill, one concrete 8-byte request that needs a new chunk; chunks = 2; unwind 6")
 
 # ZST vectors: capacity-overflow clause of C07 (and the ZST capacity clause of C08); no allocation, no loops
 for name, inst in [
@@ -347,6 +353,11 @@ for name, inst, tags, tier in [
     ("nopanic_with_settings_ok", "conversions on an allocated, unclaimed arena never panic", [], "quick"),
 ]:
     A("align", name, ["C18"], inst, tags=tags, tier=tier, mem_gb=6, bounds=C18B)
+for name, inst, tags, tier in [
+    ("raise_then_older_op_up", "up: A = L(<=4,<=8), B = L(<=3,1) packed under MIN_ALIGN 1, raise to 8 via borrow_mut_with_settings or aligned::<8>, ONE of deallocate+allocate / grow / grow_zeroed / shrink on the OLDER block A", ["up"], "quick"),
+    ("raise_then_older_op_down", "same, down", [], "thorough"),
+]:
+    A("align", name, ["C18", "C01", "C02", "C13"], inst, tags=tags, tier=tier, mem_gb=6, bounds="new (MIN_ALIGN 1), two packed blocks with one symbolic byte each, raise the minimum alignment to 8, ONE operation on the older block with N = L(<=8,<=8); 1 chunk; unwind 6")
 H("kani-arena", "align::panic_with_settings_unallocated", ["C18"], kind="must_panic", expect_fail=[r"error_behavior::panic::unallocated"], stubbing=True, inst="with_settings to GUARANTEED_ALLOCATED on an unallocated arena", unwind=6, timeout_s=900, mem_gb=4, note=AR_STUBS, bounds="-")
 H("kani-arena", "align::panic_with_settings_claimed", ["C18"], kind="must_panic", expect_fail=[r"error_behavior::panic::claimed"], stubbing=True, inst="with_settings to non-claimable on a claimed arena", unwind=6, timeout_s=900, mem_gb=4, note=AR_STUBS, bounds="-")
 
